@@ -140,6 +140,14 @@ func (s *StructType) IsAssignableFrom(other Type, typeTable *TypeLookup) error {
 						t.Id, s.Id, member.Id, o.Tname.ArrayDim, member.Tname.ArrayDim),
 				})
 			} else if member.Tname.MapDim != o.Tname.MapDim {
+				// An untyped map member accepts a typed map, and a typed
+				// map member accepts a struct with compatible fields,
+				// just as they would outside of a struct.
+				if mt, ot := typeTable.Get(member.Tname),
+					typeTable.Get(o.Tname); mt != nil && ot != nil &&
+					mt.IsAssignableFrom(ot, typeTable) == nil {
+					continue
+				}
 				if o.Tname.MapDim == 0 {
 					errs = append(errs, &IncompatibleTypeError{
 						Message: fmt.Sprintf(
